@@ -2,13 +2,14 @@ ENTRY = dict(
     runner="C32", pkg="./cmd/c32", corr=["Corr.C32Corr"], gen=["dicttls"], n=dict(quick=120, thorough=3000),
     rule="Gen/Dict.v is regenerated from REPO/dicttls (go/parser + go/types, every Dict*ValueIndexed/NameIndexed variable) before the "
          "proof build; the 28 compiled table pairs are compared entry by entry with the generated tables (CDictLive) and checked on the Go "
-         "side for value->name->value. JSON half: every listed parrot (2 connections) and n runner-generated hellos whose cipher suites, "
+         "side for value->name->value. JSON half: every listed parrot (2 connections) and max(n, 3*#types) runner-generated hellos that force, in turn, every extension type "
+         "the JSON format can express (ExtensionFromID asked for all 2^16 ids; dictionary name + UnmarshalJSON) and whose cipher suites, "
          "groups and signature schemes are drawn from the WHOLE dictionaries are (a) rendered, from the parsed wire bytes, in the JSON format "
          "of ClientHelloSpec.UnmarshalJSON using the value-indexed names and imported, (b) imported raw by Fingerprinter.RawClientHello; both "
          "specs are applied to fresh connections with the same deterministic Config.Rand and the two wire hellos compared (suites, compression "
          "methods, extension order, extension bodies) after replacing GREASE values by 0x0a0a and blanking key_exchange / padding / psk bodies. "
-         "The name lists and the code points the importer produced go to Coq (CImportG/CImport); unknown names must be refused. Hellos with "
-         "an extension that has no JSON form (ECH, ...) or a code point without dictionary name are counted as skipped. Distinct by "
+         "The name lists and the code points the importer produced go to Coq (CImportG/CImport); unknown names must be refused. Parts "
+         "the JSON format cannot express (ECH, code points without dictionary name) are stripped from the wire hello before both imports. Distinct by "
          "(hello, name list); non-trivial when the list has at least two names / the table at least two entries.",
     trusted_base=["go/parser + go/types evaluation of the dicttls map literals (translator harness/cmd/c32/gen.go)",
                   "the runner's ClientHello parser and JSON renderer (harness/cmd/c32/wire.go, run.go)",
